@@ -39,7 +39,11 @@ def run(mid, props):
     try:
         for pid in props:
             t0 = time.time()
+            ev = os.path.join(V, "evidence", pid + ".json")
+            saved = open(ev).read() if os.path.exists(ev) else None   # evidence of the unchanged tree is kept
             r = sh([os.path.join(V, "check.py"), pid, "--tier", "quick"], cwd=V)
+            if saved is not None:
+                open(ev, "w").write(saved)
             lines = [l for l in r.stdout.splitlines() if l.startswith("VIOLATION") or l.startswith(pid + ":")]
             caught = r.returncode == 1 and any(l.startswith("VIOLATION") for l in lines)
             replay = None
